@@ -690,12 +690,12 @@ func init() {
 	reg("os.LookupEnv", func(e *Exec, c *frame, fn *ssa.Function, a []Value) Value { return Tuple{Str{}, mkBool(false)} })
 	reg("time.Sleep", func(e *Exec, c *frame, fn *ssa.Function, a []Value) Value { return nil })
 	reg("time.Now", func(e *Exec, c *frame, fn *ssa.Function, a []Value) Value {
-		// Time{wall:0, ext: seconds since year 1, loc: nil (UTC)} ; seconds are symbolic but within 1970..2100
+		// Time{wall:0, ext: seconds since year 1, loc: nil (UTC)} ; seconds are symbolic but within 1970..2255
 		v := e.freshVar("time.Now", 64)
 		c1 := e.ctx
 		const unixToInternal = (1969*365 + 1969/4 - 1969/100 + 1969/400) * 86400
 		lo := c1.BV(uint64(unixToInternal), 64)
-		hi := c1.BV(uint64(unixToInternal+4102444800), 64)
+		hi := c1.BV(uint64(unixToInternal+9000000000), 64)
 		e.assume(e.boolSc(c1.And(c1.Sle(lo, v), c1.Sle(v, hi))))
 		// monotone with respect to previous calls
 		if prev, ok := e.ghostTerm["time.Now"]; ok {
@@ -703,6 +703,35 @@ func init() {
 		}
 		e.ghostTerm["time.Now"] = v
 		return Struct{Sc{}, Sc{T: v}, (*Value)(nil)}
+	})
+	// Time.Sub / Duration.Seconds on symbolic instants: whole seconds, no overflow (the clock model is bounded to 1970..2100)
+	reg("(time.Time).Sub", func(e *Exec, c *frame, fn *ssa.Function, a []Value) Value {
+		t, u := a[0].(Struct), a[1].(Struct)
+		tw, te, uw, ue := t[0].(Sc), t[1].(Sc), u[0].(Sc), u[1].(Sc)
+		if te.T == nil && ue.T == nil {
+			return e.runFunc(c, fn, e.P.info(fn), a, nil)
+		}
+		if tw.T != nil || uw.T != nil || tw.C != 0 || uw.C != 0 {
+			e.unsupported("Time.Sub on symbolic instants with wall/monotonic parts")
+		}
+		ki := kindInfo{w: 64, isInt: true, signed: true}
+		sec := e.intBinop(token.SUB, ki, te, ue, types.Typ[types.Int64]).(Sc)
+		d := e.intBinop(token.MUL, ki, sec, Sc{C: 1000000000}, types.Typ[types.Int64]).(Sc)
+		if d.T != nil {
+			e.durSecs[d.T] = sec
+		}
+		return d
+	})
+	reg("(time.Duration).Seconds", func(e *Exec, c *frame, fn *ssa.Function, a []Value) Value {
+		d := a[0].(Sc)
+		if d.T == nil {
+			return float64(int64(d.C)) / 1e9
+		}
+		if sec, ok := e.durSecs[d.T]; ok {
+			return SymFloat{sec: sec}
+		}
+		e.unsupported("Duration.Seconds of a symbolic duration of unknown origin")
+		return nil
 	})
 	reg("time.AfterFunc", func(e *Exec, c *frame, fn *ssa.Function, a []Value) Value {
 		e.timers = append(e.timers, Tuple{a[0], a[1]})
